@@ -366,12 +366,13 @@ def rand_reply_schedule(rng, e, std, cfgp2=1024, kinds=None, p2=None):
     if kind == 'good':
         return [(t, good)], kind
     if kind == 'neg':
-        return [(t, bytes([0x7F, sid, rng.choice([0x10, 0x22, 0x31, 0x33, 0x95, 0x00])]))], kind
+        # any code but 0x78 ends the request (the busy / repeat / wait-style codes 0x21, 0x23, 0x24, 0x37, 0x7E, 0x7F included): exactly one frame is ever sent
+        return [(t, bytes([0x7F, sid, rng.choice([0x10, 0x21, 0x21, 0x22, 0x23, 0x24, 0x31, 0x33, 0x37, 0x7E, 0x7F, 0x95, 0x00, rng.choice([c for c in range(256) if c != 0x78])])]))], kind
     if kind == 'pend_good':
         k = rng.randrange(1, 4)
         return [(t + 10 * i, bytes([0x7F, sid, 0x78])) for i in range(k)] + [(t + 10 * k, good)], kind
     if kind == 'pend_neg':
-        return [(t, bytes([0x7F, sid, 0x78])), (t + 7, bytes([0x7F, sid, 0x22]))], kind
+        return [(t, bytes([0x7F, sid, 0x78])), (t + 7, bytes([0x7F, sid, rng.choice([0x22, 0x21, 0x31, 0x10])]))], kind
     if kind == 'silence':
         return [], kind
     if kind == 'pend_silence':
